@@ -18,6 +18,9 @@ type ntype struct {
 
 var namedTypes = []ntype{
 	{pAO, "Item", 0, "struct", true, false}, {pAO, "Color", 0, "int", true, false}, {pAO, "Str", 0, "iface", true, false},
+	// named interface types WITHOUT methods: named types of a package, not `any`
+	{pAO, "Object", 0, "iface", true, false}, {pAO, "Anything", 0, "iface", true, false}, {pBO, "Object", 0, "iface", true, false},
+	{pUser, "Payload", 0, "iface", true, false}, {"encoding/json", "Token", 0, "iface", true, false},
 	{pAO, "Ptr", 0, "ptr", true, false}, {pAO, "Dict", 0, "map", false, false}, {pAO, "Fn", 0, "func", false, false},
 	{pAO, "Lit", 0, "struct", false, false},
 	{pAO, "List", 1, "struct", false, false}, {pAO, "Pair", 2, "struct", false, true}, {pAO, "Tri", 3, "struct", false, false},
@@ -335,6 +338,22 @@ func (prop) Generate(r *core.RNG, tier string) []json.RawMessage {
 		{K: "struct", Src: pAO + "|Lit|U", Fields: []Field{{Name: "x", T: bt("int"), Origin: pAO}, fld("Y", bt("string"), `json:"y"`)}},
 		{K: "struct", Src: pAO + "|Lit|E", Fields: []Field{{Name: "error", Emb: true, T: errT, Origin: pAO}, {Name: "item", Emb: true, T: named(ntype{Pkg: pAO, Name: "item"}), Origin: pAO},
 			{Name: "Color", Emb: true, T: &Ty{K: "ptr", Elem: named(findNamed(pAO, "Color"))}}}},
+	}
+	// named interface types without methods (own package and foreign): top level, pointer / slice / array / chan / map elements and
+	// keys, struct fields, embedded fields, type arguments; next to any and error
+	{
+		obj, anyth, bobj, pay, tok := named(findNamed(pAO, "Object")), named(findNamed(pAO, "Anything")), named(findNamed(pBO, "Object")),
+			named(findNamed(pUser, "Payload")), named(findNamed("encoding/json", "Token"))
+		for _, n := range []*Ty{obj, anyth, bobj, pay, tok} {
+			corner = append(corner, n, &Ty{K: "ptr", Elem: n}, &Ty{K: "slice", Elem: n}, &Ty{K: "map", Key: bt("string"), Elem: n},
+				&Ty{K: "struct", Fields: []Field{fld("O", n, ""), {Name: n.Name, Emb: true, T: n}}})
+		}
+		corner = append(corner,
+			&Ty{K: "map", Key: obj, Elem: bobj}, &Ty{K: "array", Len: 2, Elem: pay}, &Ty{K: "chan", Elem: tok},
+			named(list, obj), named(list, bobj), named(pair, bt("string"), obj), named(box, tok),
+			&Ty{K: "struct", Fields: []Field{fld("A", &Ty{K: "any"}, ""), fld("B", obj, `json:"b"`), fld("C", bobj, ""), fld("E", errT, ""),
+				{Name: "Payload", Emb: true, T: pay}, {Name: "Token", Emb: true, T: tok}, fld("S", named(findNamed(pAO, "Str")), "")}},
+			&Ty{K: "slice", Elem: &Ty{K: "map", Key: bt("string"), Elem: &Ty{K: "ptr", Elem: anyth}}})
 	}
 	for _, t := range corner {
 		for _, tg := range []struct {
